@@ -177,6 +177,10 @@ func (vc *FuncVC) scanAllocs() {
 			if a, ok := in.(*ssa.Alloc); ok {
 				if !vc.addrEscapes(a, map[ssa.Value]bool{}) {
 					vc.localAlloc[a] = true
+				} else if elem := a.Type().Underlying().(*types.Pointer).Elem(); !isStruct(elem) && capturedOnly(a) && cellImmutableIn(a, vc.Fn) {
+					// a variable captured by closures that only read it, initialised before
+					// the first capture: nobody else can write it
+					vc.localAlloc[a] = true
 				}
 			}
 		}
@@ -1428,16 +1432,22 @@ func cellImmutableIn(cell ssa.Value, parent *ssa.Function) bool {
 		}
 		for _, s := range stores {
 			for _, m := range closures {
+				// the store must not be able to execute after the capture on the same cell
 				sb, mb := s.Block(), m.Block()
 				if sb == mb {
 					if instrIndex(s) > instrIndex(m) {
 						return false
 					}
-				} else if !sb.Dominates(mb) {
-					return false
-				} else if sb != c.Block() && reachableAvoiding(mb, sb, c.Block()) {
-					// (a store in a later loop iteration goes to a new cell when every way
-					// back to it re-executes the allocation)
+					if sb != c.Block() && reachableAvoiding(mb, sb, c.Block()) {
+						return false
+					}
+				} else if sb == c.Block() {
+					// (a store in a later loop iteration goes to a new cell: every way
+					// back to it re-executes the allocation first)
+					if instrIndex(s) < instrIndex(c) {
+						return false
+					}
+				} else if reachableAvoiding(mb, sb, c.Block()) {
 					return false
 				}
 			}
@@ -1491,4 +1501,28 @@ func reachableAvoiding(from, to, avoid *ssa.BasicBlock) bool {
 		stack = append(stack, x.Succs...)
 	}
 	return false
+}
+
+// capturedOnly: the cell's address is used only by loads, stores to it, and closure captures.
+func capturedOnly(a *ssa.Alloc) bool {
+	refs := a.Referrers()
+	if refs == nil {
+		return false
+	}
+	for _, r := range *refs {
+		switch u := r.(type) {
+		case *ssa.DebugRef, *ssa.MakeClosure:
+		case *ssa.UnOp:
+			if u.Op != token.MUL {
+				return false
+			}
+		case *ssa.Store:
+			if u.Addr != a {
+				return false
+			}
+		default:
+			return false
+		}
+	}
+	return true
 }
